@@ -13,6 +13,8 @@ def check(tier):
     n = lexcommon.lex_replay(rep, pvh, ["MC_PongoDoc_q.cfg"] if q else ["MC_PongoDoc_t.cfg"], KINDS,
                              module="MC_PongoDoc", cmd="doc-replay")
     n += lexcommon.lex_replay(rep, pvh, ["MC_PongoLexer_code_q.cfg"], KINDS)
+    import filtercommon
+    filtercommon.filter_replay(rep, pvh, ["spaceless"], None if q else {"spaceless": 7})
     rep.cov["traces_validated_against_impl"] = 0
     rep.assumptions += ["comments and verbatim blocks are kept away from trimming constructs (the statement does not settle those placements)"]
     return rep.finish(
